@@ -35,6 +35,8 @@ class _T:
 
 
 class Scheduler:
+    release_points = False  # set per execution by the harness: lock releases are scheduling points too
+
     def __init__(self, choices=(), max_steps=4000):
         self.choices = list(choices)
         self.pos = 0
@@ -223,6 +225,9 @@ def make_shims(s: Scheduler):
             if self.owner is None:
                 raise RuntimeError("release unlocked lock")
             self.owner = None
+            # the end of a critical section publishes: what the thread does next is no longer protected
+            if s.release_points:
+                s.point("lock.release")
 
         def locked(self):
             return self.owner is not None
